@@ -205,6 +205,13 @@ def main(tier: str) -> int:
                 runs.append({"alg": alg, "shape": [4, 3, 3], "sparse": sp, "maxiters": mi, "maxinner": mi, "rank": 3, "seed": sd + mi,
                              "stoptol": 1e-4, "printitn": 0, "precompinds": True, "inexact": bool(mi % 2), "lbfgs": 3,
                              "empty_slice": False, "zero_row": False, "warm": True, "dtype": ("int" if mi == 1 else "float")})
+    # a zero row of the guess that survives to the end (one outer iteration: the inadmissible-zero repair has not run yet):
+    # the model is 0 where counts were observed and the objective is -inf, for every holder of the data
+    for alg in ("mu", "pdnr", "pqnr"):
+        for sp in (False, True):
+            runs.append({"alg": alg, "shape": [3, 4], "sparse": sp, "maxiters": 1, "maxinner": 2, "rank": 2, "seed": sd + 3,
+                         "stoptol": 1e-4, "printitn": 0, "precompinds": True, "inexact": False, "lbfgs": 3,
+                         "empty_slice": False, "zero_row": True})
     # witnesses of K-C11-sparse-all-zero-data (dense all-zero data is answered by mu and pdnr)
     for alg in ("mu", "pdnr", "pqnr"):
         for sp in (False, True):
